@@ -191,7 +191,9 @@ def run(tier, seed):
              "lists TLC prints in MC_Collapse_gen (all lists of <= 3 or 4 prefixes over 3 bits, capped by a seeded "
              "sample) embedded at several offsets in each class/platform with a random native or foreign spelling "
              "per element, plus seeded random 32-bit lists with siblings, nested, duplicate and 0/0 elements, lists "
-             "containing a non-contiguous wildcard, and lists containing a foreign object; non-trivial = at least two "
+             "containing a non-contiguous wildcard (also behind an 'any'), lists containing a foreign object, cascade lists "
+             "(every piece of a block two or three levels down plus intermediate blocks), and histories (a line re-assigned "
+             "on one input object, same objects collapsed again); non-trivial = at least two "
              "elements; distinct = distinct (class, platform, texts)",
         samples=[dict(job=jobs[i], events=ev_lists[i]) for i in (0, len(jobs) // 2, len(jobs) - 1)],
         model_checking=mcs, generation=gen, trace_validation=vstats, exhaustive=False,
